@@ -483,6 +483,28 @@ asn1c_print_streams(arg_t *arg)  {
 	return 0;
 }
 
+/*
+ * Check whether the support code has a file named <stem>.h or <stem>.c.
+ */
+static int
+asn1c__is_support_file_stem(const asn1c_dep_chainset *deps, const char *stem) {
+    size_t stem_len = strlen(stem);
+
+    for(size_t i = 0; deps && i < deps->chains_count; i++) {
+        const asn1c_dep_chain *chain = deps->chains[i]->chain;
+        for(size_t j = 0; j < chain->deps_count; j++) {
+            const char *fname = chain->deps[j]->filename;
+            if(strncmp(fname, stem, stem_len) == 0
+               && (strcmp(fname + stem_len, ".h") == 0
+                   || strcmp(fname + stem_len, ".c") == 0)) {
+                return 1;
+            }
+        }
+    }
+
+    return 0;
+}
+
 static int
 asn1c_save_streams(arg_t *arg, asn1c_dep_chainset *deps, const char *destdir,
                    int optc, char **argv) {
@@ -504,6 +526,15 @@ asn1c_save_streams(arg_t *arg, asn1c_dep_chainset *deps, const char *destdir,
 	}
 
 	filename = strdup(asn1c_make_identifier(AMI_MASK_ONLY_SPACES, expr, (char*)0));
+	if(asn1c__is_support_file_stem(deps, filename)) {
+		safe_fprintf(stderr,
+			"Cannot compile %s at line %d: %s.c and %s.h "
+			"are the names of the support code files, "
+			"rename the type\n",
+			expr->Identifier, expr->_lineno, filename, filename);
+		free(filename);
+		return -1;
+	}
 	fp_c = asn1c_open_file(destdir, filename, ".c", &tmpname_c);
     if(fp_c == NULL) {
         return -1;
